@@ -45,21 +45,20 @@ theorem modelRun_obs (cfg : Cfg) (rs : List Round) :
 
 /-- **The model meets the Spec, for the proved properties** — in the driver's terms: the verdict `Spec.runSpec` computes
 from a well-formed history and the events the driver's `modelRun` produces for it has no entry for a property in
-`proven` (for C07: when INFO log lines are not forwarded, or on histories in which a round that accepts a connection
-delivers no frame: `AccAlone`). -/
+`proven`. -/
 theorem spec_passes_on_model {cfg : Cfg} (ok : CfgOK cfg) (hfuel : cfg.fuel = 0) (hperm : OrdPerm cfg)
     (hmt : cfg.mtClosed ≠ cfg.allTypes) (rs : List Round)
-    (hwf : RoundsWF rs) (p : String) (hp : p ∈ proven) (hacc : p = "C07" → AccAlone cfg rs) :
+    (hwf : RoundsWF rs) (p : String) (hp : p ∈ proven) :
     (Spec.runSpec cfg rs (Pyrtma.Drv.Manager.modelRun cfg rs).1 none).errs.filter (·.1 == p) = [] := by
   rw [(modelRun_obs cfg rs).1]
-  exact (Spec.noErr_iff_filter p _).mp (model_meets_spec_proven ok hfuel hperm hmt rs hwf p hp hacc)
+  exact (Spec.noErr_iff_filter p _).mp (model_meets_spec_proven ok hfuel hperm hmt rs hwf p hp)
 
 /-- the driver's verdict line for such a property is `ok` -/
 theorem checkAll_ok_on_model {cfg : Cfg} (ok : CfgOK cfg) (hfuel : cfg.fuel = 0) (hperm : OrdPerm cfg)
     (hmt : cfg.mtClosed ≠ cfg.allTypes) (rs : List Round)
-    (hwf : RoundsWF rs) (p : String) (hp : p ∈ proven) (hacc : p = "C07" → AccAlone cfg rs) :
+    (hwf : RoundsWF rs) (p : String) (hp : p ∈ proven) :
     (Spec.runSpec cfg rs (Pyrtma.Drv.Manager.modelRun cfg rs).1 none).errs.find? (·.1 == p) = none := by
-  have h := spec_passes_on_model ok hfuel hperm hmt rs hwf p hp hacc
+  have h := spec_passes_on_model ok hfuel hperm hmt rs hwf p hp
   rw [List.find?_eq_none]
   intro e he hpe
   have : e ∈ (Spec.runSpec cfg rs (Pyrtma.Drv.Manager.modelRun cfg rs).1 none).errs.filter (·.1 == p) :=
